@@ -483,3 +483,95 @@ def cases_for(prop, tier, seed):
     if prop == "C18":
         return CORPUS.get(prop, []) + prof_cfg(g, 800 * k)
     return _cases_for_base(prop, tier, seed)
+
+
+# ------------------------------------------------------------------------------------ addresses (C12, C13, C04)
+
+def prof_collide(g, n):
+    out = []
+    for i in range(n):
+        g.reset_names()
+        objs, _ = build_tree(g, depth=2, n_top=(2, 5), collide=True, repeat_p=0.4, ref_p=0.25, block_p=0.3,
+                             field_kw={"conv_p": 0.0}, small_sizes=True, block_ref_p=0.1)
+        # ref overrides may allow overlap themselves
+        for o in objs:
+            if o["kind"] == "ref" and o["override"]["kind"] != "block" and g.chance(0.3):
+                o["override"]["allow_address_overlap"] = True
+        cfg = {"register_address_type": "i32", "command_address_type": "i32", "buffer_address_type": "i32",
+               "default_byte_order": "LE"}
+        out.append(case({"config": cfg, "objects": objs}, pick_syntax(g, (7, 2, 1, 1)), "collide"))
+    return out
+
+
+def prof_addrtype(g, n):
+    """Extremes at -1/0/+1 around each type's limits."""
+    out = []
+    for i in range(n):
+        g.reset_names()
+        t = g.pick(INTS)
+        lo, hi = INT_RANGE[t]
+        kind = g.pick(["register", "register", "command", "buffer"])
+        edge = g.pick([lo, hi, hi, hi])
+        delta = g.pick([-2, -1, 0, 0, 1, 2])
+        target = edge + delta          # the extreme address we aim for
+        shape = g.pick(["flat", "repeat", "block", "block_repeat", "neg_stride", "nested", "blockref"])
+        name = g.fresh(["Reg", "Obj", "Thing"])
+        def leaf(addr, rep=None):
+            if kind == "register":
+                o = {"kind": "register", "name": name, "address": str(addr), "size_bits": 8, "fields": []}
+            elif kind == "command":
+                o = {"kind": "command", "name": name, "address": str(addr)}
+            else:
+                o = {"kind": "buffer", "name": name, "address": str(addr)}
+            if rep and kind != "buffer":
+                o["repeat"] = rep
+            return o
+        objs = []
+        if shape == "flat":
+            objs = [leaf(target)]
+        elif shape == "repeat":
+            cnt, st = g.r.randint(2, 4), g.r.randint(1, 5)
+            objs = [leaf(target - (cnt - 1) * st, {"count": str(cnt), "stride": str(st)})]
+        elif shape == "neg_stride":
+            cnt, st = g.r.randint(2, 4), g.r.randint(1, 5)
+            # instances go downwards from `start`; aim the lowest (or highest) at the target
+            if edge == lo:
+                objs = [leaf(target + (cnt - 1) * st, {"count": str(cnt), "stride": str(-st)})]
+            else:
+                objs = [leaf(target, {"count": str(cnt), "stride": str(-st)})]
+        elif shape == "block":
+            off = g.r.randint(1, 50)
+            objs = [{"kind": "block", "name": "Blk", "address_offset": str(off), "objects": [leaf(target - off)]}]
+        elif shape == "block_repeat":
+            cnt, st = g.r.randint(2, 3), g.r.randint(1, 40)
+            objs = [{"kind": "block", "name": "Blk", "repeat": {"count": str(cnt), "stride": str(st)},
+                     "objects": [leaf(target - (cnt - 1) * st)]}]
+        elif shape == "nested":
+            o1, o2 = g.r.randint(0, 20), g.r.randint(0, 20)
+            objs = [{"kind": "block", "name": "Outer", "address_offset": str(o1), "objects": [
+                {"kind": "block", "name": "Inner", "address_offset": str(o2), "objects": [leaf(target - o1 - o2)]}]}]
+        else:  # blockref
+            off = g.r.randint(1, 30)
+            objs = [{"kind": "block", "name": "Blk", "objects": [leaf(g.r.randint(0, 5) if lo == 0 else 0)]},
+                    {"kind": "ref", "name": "BlkCopy", "target": "Blk", "override": {"kind": "block", "address_offset": str(target - off if target - off >= lo else off)}}]
+        cfg = {"register_address_type": t, "command_address_type": t, "buffer_address_type": t}
+        if g.chance(0.1):
+            del cfg[{"register": "register_address_type", "command": "command_address_type", "buffer": "buffer_address_type"}[kind]]
+        out.append(case({"config": cfg, "objects": objs}, pick_syntax(g, (7, 2, 1, 1)), "addrtype"))
+    return out
+
+
+_cases_for_base2 = cases_for
+
+
+def cases_for(prop, tier, seed):
+    thorough = tier == "thorough"
+    g = Gen(seed, stream=int(prop[1:]))
+    k = 10 if thorough else 1
+    if prop == "C12":
+        return CORPUS.get(prop, []) + prof_collide(g, 700 * k) + prof_mixed(g, 150 * k, depth=2, neg=True, field_kw={"conv_p": 0.05})
+    if prop == "C13":
+        return CORPUS.get(prop, []) + prof_addrtype(g, 700 * k) + prof_mixed(g, 200 * k, depth=3, neg=True, field_kw={"conv_p": 0.05}, block_ref_p=0.1)
+    if prop == "C04":
+        return CORPUS.get(prop, []) + prof_mixed(g, 400 * k, depth=3, neg=True, field_kw={"conv_p": 0.05}, block_ref_p=0.15, repeat_p=0.5)
+    return _cases_for_base2(prop, tier, seed)
